@@ -175,6 +175,12 @@ func NewBalDriver(mode string) *BalDriver {
 			balOp{kind: "lock", from: "A", to: "Lnext", amt: bigS("-5"), until: 1, signer: "C"},
 			balOp{kind: "tick", signer: "C", de: 1}, balOp{kind: "tick", signer: "S", de: 1},
 			balOp{kind: "balEpoch", signer: "S"}, balOp{kind: "balEpoch", signer: "A"},
+			// the committee-majority account (2 of 3) is not the Alphabet (3 of 3)
+			balOp{kind: "transferX", from: "A", to: "B", amt: bigS("3"), signer: "M"},
+			balOp{kind: "burn", from: "A", amt: bigS("3"), signer: "M"},
+			balOp{kind: "mint", to: "A", amt: bigS("5"), signer: "M"},
+			balOp{kind: "lock", from: "A", to: "Lnext", amt: bigS("3"), until: 1, signer: "M"},
+			balOp{kind: "tick", signer: "M", de: 1}, balOp{kind: "balEpoch", signer: "M"},
 		)
 	case "C09":
 		add(balOp{kind: "mint", to: "A", amt: bigS("10"), signer: "C"})
@@ -204,7 +210,11 @@ func NewBalDriver(mode string) *BalDriver {
 }
 
 func (d *BalDriver) Build() *World {
-	w := NewWorld(1)
+	n := 1
+	if d.Mode == "C02" {
+		n = 3 // the committee-majority account differs from the Alphabet account
+	}
+	w := NewWorld(n)
 	nns := CompileDir(Repo, "nns")
 	nm := CompileDir(Repo, "netmap")
 	bal := CompileDir(Repo, "balance")
@@ -328,6 +338,8 @@ func (d *BalDriver) Step(x *Exec, n *Node, i int) StepResult {
 		addSigner(from)
 		signers = append(signers, w.Alpha)
 		alpha = true
+	case "M":
+		signers = append(signers, w.Comm)
 	case "nobody":
 	}
 	hasWitness := func(a []byte) bool {
@@ -650,15 +662,21 @@ func (d *BalDriver) Step(x *Exec, n *Node, i int) StepResult {
 			where["account"] = sym
 			return viol("balance-ne-model", fmt.Sprintf("balanceOf(%s)=%v model=%v", sym, r.Stack, want))
 		}
-		rec, has := after[Hx(a)]
-		_, mhas := nm.bal[Hx(a)]
-		if has != mhas || (has && rec.Cmp(nm.get(Hx(a))) != 0) {
+		rec := after[Hx(a)]
+		if rec == nil {
+			rec = new(big.Int)
+		}
+		if rec.Cmp(nm.get(Hx(a))) != 0 {
 			where["account"] = sym
-			return viol("record-ne-model", fmt.Sprintf("storage record of %s: present=%v value=%v; model present=%v value=%v", sym, has, rec, mhas, nm.get(Hx(a))))
+			return viol("record-ne-model", fmt.Sprintf("storage record of %s holds %v, model %v", sym, rec, nm.get(Hx(a))))
 		}
 	}
-	if len(after) != len(nm.bal) {
-		return viol("record-ne-model", fmt.Sprintf("contract holds %d account records, model %d", len(after), len(nm.bal)))
+	for a, b := range after {
+		// whether a zero balance keeps a storage record is an implementation detail; only values are compared
+		if b.Cmp(nm.get(a)) != 0 {
+			where["account"] = d.symOf(a)
+			return viol("record-ne-model", fmt.Sprintf("storage record of %s holds %v, model %v", d.symOf(a), b, nm.get(a)))
+		}
 	}
 	if !Same(ts.Ret0(), NB(nm.supply)) {
 		return viol("supply-ne-model", fmt.Sprintf("totalSupply=%v model=%s", ts.Stack, nm.supply))
